@@ -1,0 +1,27 @@
+package window
+
+import "strings"
+
+// groupKeyEscaper escapes the separator (and the escape character itself)
+// inside a group-key component.
+var groupKeyEscaper = strings.NewReplacer(`\`, `\\`, "|", `\|`)
+
+// appendGroupKeyPart appends one component of a composite group key, separated
+// by "|". Separator characters inside a component are escaped and a NULL or
+// missing component is tagged, so distinct key tuples can never produce the
+// same key string (a plain join let ("x|y","z") and ("x","y|z"), or "" and
+// NULL, share one buffer and fire mixed batches). Keys of ordinary values keep
+// their historical form ("alice|30").
+func appendGroupKeyPart(b *strings.Builder, first bool, part string, isNull bool) {
+	if !first {
+		b.WriteByte('|')
+	}
+	if isNull {
+		b.WriteString(`\N`)
+		return
+	}
+	if strings.ContainsAny(part, `\|`) {
+		part = groupKeyEscaper.Replace(part)
+	}
+	b.WriteString(part)
+}
